@@ -126,6 +126,26 @@ Proof.
   split; [apply pending_delivery | apply not_pending_no_delivery].
 Qed.
 
+(* a response whose id belongs to a request that has already ENDED (context cancelled or
+   timed out, entry not yet removed by its clean-up) is a received packet like any other: it
+   is delivered to nobody, produces exactly the events it would produce with no such entry -
+   so C06_first_match / C06_first_match_complete / C06_at_most_one_handler apply to it: the
+   handler of the first accepting route runs exactly once - and the stale entry is gone; a
+   live pending request still takes its response first, the ended entries untouched. *)
+Theorem C06_ended_request_routed : forall (t : table) (pend ended : list str) (p : pkt),
+  pending_hit pend p = false ->
+  let '(ev, pend', ended') := do_route_e t pend ended p in
+  ev = fst (do_route t pend p) /\ pend' = pend /\ deliveries ev = [] /\
+  (pending_hit ended p = true ->
+     exists a ns any, p = PIQ a ns any /\ forall x, In x ended' <-> In x ended /\ x <> a_id a) /\
+  (pending_hit ended p = false -> ended' = ended).
+Proof. exact ended_routed. Qed.
+
+Theorem C06_live_request_first : forall (t : table) (pend ended : list str) (p : pkt),
+  pending_hit pend p = true ->
+  do_route_e t pend ended p = (fst (do_route t pend p), snd (do_route t pend p), ended).
+Proof. exact ended_live_first. Qed.
+
 Theorem C06_request_never_a_response : forall (pend : list str) (a : attrs) (ns any : option str),
   a_type a = s_get \/ a_type a = s_set -> pending_hit pend (PIQ a ns any) = false.
 Proof. exact request_not_pending. Qed.
@@ -163,4 +183,6 @@ Print Assumptions C06_auto_reply.
 Print Assumptions C06_err_reply.
 Print Assumptions C06_matched_no_reply.
 Print Assumptions C06_pending.
+Print Assumptions C06_ended_request_routed.
+Print Assumptions C06_live_request_first.
 Print Assumptions C06_request_never_a_response.
